@@ -3,6 +3,8 @@ package txh
 import (
 	"fmt"
 	"math/rand"
+	"runtime/debug"
+	"strings"
 	"sync"
 	"time"
 
@@ -30,11 +32,18 @@ type Sched struct {
 	spins    []int
 	deadline time.Time
 	TimedOut bool
+	// GateCommits: a participant may start its Commit only while no other participant is in the middle
+	// of its operations (has made a backend call, has not reached its own Commit yet). Used only when
+	// the 'inconsistent snapshot' finding is listed, to keep searching behind it.
+	GateCommits bool
+	midOps      []bool
+	commitPhase []bool
+	Gated       int
 }
 
 // NewSched creates a scheduler for n participants.
 func NewSched(n int, schedule []int, budget time.Duration) *Sched {
-	s := &Sched{n: n, current: -1, done: make([]bool, n), parked: make([]bool, n), schedule: schedule, spins: make([]int, n)}
+	s := &Sched{n: n, current: -1, done: make([]bool, n), parked: make([]bool, n), schedule: schedule, spins: make([]int, n), midOps: make([]bool, n), commitPhase: make([]bool, n)}
 	s.cond = sync.NewCond(&s.mu)
 	s.deadline = time.Now().Add(budget)
 	return s
@@ -118,11 +127,70 @@ func (s *Sched) finish(id int) {
 	s.mu.Lock()
 	defer s.mu.Unlock()
 	s.done[id] = true
+	s.midOps[id] = false
 	s.parked[id] = false
 	if s.current == id {
 		s.current = s.pick(-1)
 		s.cond.Broadcast()
 	}
+}
+
+// EnterCommit is called by participant id right before it calls Commit/Rollback.
+func (s *Sched) EnterCommit(id int) {
+	s.mu.Lock()
+	s.midOps[id] = false
+	s.commitPhase[id] = true
+	s.mu.Unlock()
+	if !s.GateCommits {
+		return
+	}
+	for {
+		s.mu.Lock()
+		busy := false
+		for i := 0; i < s.n; i++ {
+			if i != id && s.midOps[i] && !s.done[i] {
+				busy = true
+			}
+		}
+		if busy {
+			s.Gated++
+		}
+		s.mu.Unlock()
+		if !busy || s.TimedOut {
+			return
+		}
+		s.yieldTo(id, "commit-gate")
+	}
+}
+
+// yieldTo parks id and hands the token to somebody else (round robin), used by the commit gate.
+func (s *Sched) yieldTo(id int, what string) {
+	s.mu.Lock()
+	defer s.mu.Unlock()
+	s.parked[id] = true
+	next := -1
+	for k := 1; k <= s.n; k++ {
+		c := (id + k) % s.n
+		if c != id && !s.done[c] && s.parked[c] && s.midOps[c] {
+			next = c
+			break
+		}
+	}
+	if next == -1 {
+		s.parked[id] = false
+		return
+	}
+	s.current = next
+	s.cond.Broadcast()
+	for s.current != id {
+		if time.Now().After(s.deadline) {
+			s.TimedOut = true
+			s.current = id
+			break
+		}
+		s.waitWithTimeout()
+	}
+	s.parked[id] = false
 }
 
 // HookFor returns the hook to install on participant id's transaction.
@@ -132,10 +200,17 @@ func (s *Sched) HookFor(id int) Hook {
 			// result-aware bookkeeping: refused locks mark a spinner
 			return Action{}
 		}
+		s.mu.Lock()
+		if !s.inCommit(id) {
+			s.midOps[id] = true
+		}
+		s.mu.Unlock()
 		s.yield(id, site.Name())
 		return Action{}
 	}
 }
+
+func (s *Sched) inCommit(id int) bool { return s.commitPhase != nil && s.commitPhase[id] }
 
 // NoteLockResult lets the participant report a refused/granted node lock (spinner heuristic).
 func (s *Sched) NoteLockResult(id int, ok bool) {
@@ -218,6 +293,7 @@ type CResult struct {
 	Committed bool
 	Trace     []Site
 	Wall      time.Duration
+	Panicked  bool
 }
 
 // Concurrent op kinds (unique stores): get rmw update add addIfNotExist upsert remove scan count.
@@ -308,6 +384,8 @@ type ConcOpts struct {
 	FreeRunning bool
 	// Create: participants open stores with NewBtree (create race, C05/C12).
 	Create bool
+	// GateCommits: see Sched.GateCommits.
+	GateCommits bool
 	// OnTxn is called with every participant's transaction before Begin (extra hooks).
 	OnTxn func(i int, t *Txn)
 }
@@ -319,10 +397,18 @@ func (e *Env) RunConcurrent(stores []StoreOpts, progs []TxnProg, schedule []int,
 	}
 	res := make([]CResult, len(progs))
 	s := NewSched(len(progs), schedule, co.Budget)
+	s.GateCommits = co.GateCommits
 	body := func(i int) {
 		t0 := time.Now()
 		r := &res[i]
 		r.Prog = progs[i]
+		defer func() {
+			// a panic inside SOP on a participant goroutine would kill the process and lose the case
+			if p := recover(); p != nil {
+				r.OpErr = fmt.Errorf("PANIC in participant: %v\n%s", p, trimStack(debug.Stack()))
+				r.Panicked = true
+			}
+		}()
 		t, err := e.NewTxn(TxnOptions{Mode: progs[i].Mode, MaxTime: co.MaxTime})
 		if err != nil {
 			r.OpErr = fmt.Errorf("HARNESS-ERROR NewTxn: %w", err)
@@ -380,6 +466,9 @@ func (e *Env) RunConcurrent(stores []StoreOpts, progs []TxnProg, schedule []int,
 			}
 			return
 		}
+		if !co.FreeRunning {
+			s.EnterCommit(i)
+		}
 		if progs[i].End == "rollback" {
 			if err := t.Tx.Rollback(Ctx); err != nil {
 				r.CommitErr = err
@@ -415,3 +504,14 @@ type zeroSource struct{}
 
 func (zeroSource) Int63() int64 { return 0 }
 func (zeroSource) Seed(int64)   {}
+
+func trimStack(b []byte) string {
+	lines := strings.Split(string(b), "\n")
+	var keep []string
+	for _, l := range lines {
+		if strings.Contains(l, "sharedcode/sop") && len(keep) < 12 {
+			keep = append(keep, strings.TrimSpace(l))
+		}
+	}
+	return strings.Join(keep, "\n")
+}
